@@ -116,4 +116,16 @@ def fresh_schema_name(prefix="vt"):
 def forget_schema(name):
     """Drop our own entry from the process-global registry to bound memory."""
     from tartiflette.schema.registry import SchemaRegistry
-    SchemaRegistry._schemas.pop(name, None)
+    try:
+        SchemaRegistry._schemas.pop(name, None)
+    except AttributeError:
+        pass    # private storage renamed: keep the entry (costs memory only)
+
+
+def schema_of(engine, name=None):
+    """The baked schema object of a cooked engine (private attribute, with the public registry lookup as fallback)."""
+    sch = getattr(engine, "_schema", None)
+    if sch is None and name is not None:
+        from tartiflette.schema.registry import SchemaRegistry
+        sch = SchemaRegistry.find_schema(name)
+    return sch
